@@ -379,6 +379,9 @@ func (w *world) viaIntermediates(sql string, lay layoutT, want verdict, viol fun
 					if got.Err == vbox.ErrRootNotDone.Error() {
 						clause = "intermediate.root_never_completes"
 					}
+					if tr.InterStuck {
+						clause = "intermediate.compute_node_never_completes"
+					}
 					viol(clause, nInter, order, "(reference run: 1 shard, 1 leaf, no intermediate) "+want.String(), got, note)
 				}
 				continue
